@@ -99,7 +99,7 @@ def flatten(o):
             "lin_vjp": o["adj"]["lin_vjp"], "lin_jvp": o["adj"]["lin_jvp"],
             "lin0_vjp": o["adj"].get("lin0_vjp", 0), "lin0_jvp": o["adj"].get("lin0_jvp", 0), "vjp_late": bool(v.get("late")),
             "vjp_primal_eq": v["primal_eq"], "jvp_primal_eq": j["primal_eq"], "box": o["primal"]["box"],
-            "intact": o["primal"]["intact"], "nest_eq": o["primal"]["nest_eq"], "raw_eq": o["primal"].get("raw_eq", True), "ops_bad": o.get("ops_bad", 0),
+            "intact": o["primal"]["intact"], "nest_eq": o["primal"]["nest_eq"], "raw_eq": o["primal"].get("raw_eq", True), "ops_bad": o.get("ops_bad", 0), "sum_pair_bad": o["adj"].get("sum_pair_bad", 0),
             "second_checked": bool(o.get("second", {}).get("checked")), "second_nbad": o.get("second", {}).get("nbad", 0),
             "second_sym_bad": o.get("second", {}).get("sym_bad", 0), "second_num_bad": o.get("second", {}).get("num_bad", 0),
             "second_box": any(v_ == "box" for v_ in o.get("second", {}).get("modes", {}).values())}
@@ -130,6 +130,8 @@ def mirror(prop, r):
             fails.append("differentiating through an access to a tuple-valued result raised")
         elif not rev:
             fails.append("reverse mode differs from J^T g (RevExact)")
+    if prop == "C04" and not r["vjp_raised"] and not r["jvp_raised"] and r["sum_pair_bad"]:
+        fails.append("<1, JVP v> != <VJP 1, v> for G = sum o f (Adjoint, through a linear functional)")
     if prop == "C04" and not r["vjp_raised"] and not r["jvp_raised"] and r["vjp_shape"] == r["in_shape"] and r["jvp_shape"] == r["out_shape"]:
         if not (r["adj_checked"] and r["adj_nbad"] == 0):
             fails.append("<g, JVP v> != <VJP g, v> on the basis (Adjoint)")
@@ -455,6 +457,11 @@ def c19_history(verdict, tier, seed):
                 # with warnings promoted to errors these raise INSIDE a rule or a wrapper, the place where state is most easily left behind
                 seen_ = {json.dumps(c, sort_keys=True) for c in chosen}
                 chosen += [c for c in allc if c["prim"] in ("std", "var", "r_", "c_") and json.dumps(c, sort_keys=True) not in seen_][:60]
+            if fam == "extend":
+                # registrations through the pre-1.2 methods of the primitive object (their bookkeeping is per primitive - or should be): a
+                # third of them register the rule of ONE argument only and expect the other one to raise, whatever was registered before
+                seen_ = {json.dumps(c, sort_keys=True) for c in chosen}
+                chosen += [c for c in allc if c["form"] in ("deprecated", "defgrad") and c["ia"] == 0 and json.dumps(c, sort_keys=True) not in seen_][:90]
         cfgs += [dict(c, dk=seed % 7) for c in chosen]
     rng.shuffle(cfgs)
     for i, c in enumerate(cfgs):
@@ -512,7 +519,8 @@ def c12_tuples(tier, seed):
 def c10_rules(tier, seed):
     """C10 per primitive configuration (Contract!Reusable): ONE VJP function applied to the whole cotangent basis, then to the first
     cotangent again - a later call that raises or answers differently means the rule keeps state in its closure; inputs stay intact"""
-    return run_rules("C10", tier, seed, {k: v for k, v in FAMILIES.items() if k != "kink"}, 250, RULE, ASSUME, write=False)
+    # (the kink family too: Reusable needs no Jacobian, and the rules guarded for exact zeros - abs, power - are where a result is patched)
+    return run_rules("C10", tier, seed, FAMILIES, 250, RULE, ASSUME, write=False)
 
 
 def c14_rules(tier, seed):
